@@ -159,16 +159,30 @@ func C09() int {
 		// second pass over the FIRST pass's output with the same key file: at the sensitive positions
 		// the input now holds base64 text (the first pass's ciphertexts); they are string literals like
 		// any other and must come out as ciphertexts that decrypt to exactly that base64 text
-		out2p := filepath.Join(dir, "out2.log")
-		r2 := s.CLI(sut.Run{Args: []string{"redact", "--encrypt", "-q", kf, "-o", out2p, outp}, Dir: dir})
+		// (ciphertexts are longer than plaintexts: a first-pass line may lie beyond the reader's line
+		// limit — known finding F1 of C19 — and cannot be fed back; only the others are)
+		out2p, in2p := filepath.Join(dir, "out2.log"), filepath.Join(dir, "pass1-lines-below-the-reader-limit.log")
+		var fed []int
+		var in2 bytes.Buffer
+		for i, l := range ols {
+			if len(l) < 60000 {
+				fed = append(fed, i)
+				in2.Write(l)
+				in2.WriteByte('\n')
+			} else {
+				c.Count("first_pass_lines_too_long_to_feed_back", 1)
+			}
+		}
+		os.WriteFile(in2p, in2.Bytes(), 0o644)
+		r2 := s.CLI(sut.Run{Args: []string{"redact", "--encrypt", "-q", kf, "-o", out2p, in2p}, Dir: dir})
 		ob2, _ := os.ReadFile(out2p)
 		ols2 := splitLines(ob2)
-		if r2.Exit != 0 || len(ols2) != len(ols) {
-			c.Violation("second-pass-failed", fmt.Sprintf("redact --encrypt over its own output: exit %d, %d lines for %d", r2.Exit, len(ols2), len(ols)), map[string]any{"input": string(ob)})
+		if r2.Exit != 0 || len(ols2) != len(fed) {
+			c.Violation("second-pass-failed", fmt.Sprintf("redact --encrypt over its own output: exit %d, %d lines for %d: %s", r2.Exit, len(ols2), len(fed), short(bytes.TrimSpace(r2.Stderr), 160)), map[string]any{"input": in2.String()})
 		} else {
-			for i := range ols {
+			for k, i := range fed {
 				t1, e1 := jt.ParseObject(ols[i])
-				t2, e2 := jt.ParseObject(ols2[i])
+				t2, e2 := jt.ParseObject(ols2[k])
 				if e1 != nil || e2 != nil {
 					continue
 				}
